@@ -480,8 +480,9 @@ theorem in_range_narrow_kind_witness :
   refine ⟨rfl, rfl, ?_⟩
   simp [BoundsFit, Kind.rank, inRange, Kind.isSigned, Kind.bits]
 
-/-- the statement without the `BoundsFit` hypothesis (every integer kind of the left operand, any bounds): what the
-    property's sentence says literally.  `in_range_eq_two_sided` above is its `_partial` form: operands whose
+/-- the statement without the `BoundsFit` hypothesis (every integer kind of the left operand, any bounds) — still
+    for operands whose evaluation leaves the state unchanged and an integer left operand, so already narrower
+    than the property's sentence.  `in_range_eq_two_sided` above is its `_partial` form: operands whose
     evaluation leaves the state unchanged (the right-hand side evaluates `x` twice), an integer left operand, and
     bounds that fit the operand's kind. -/
 def in_range_eq_two_sided_goal : Prop :=
